@@ -684,17 +684,21 @@ fn block_method(f: &ImplItemFn) -> Res<Value> {
         .iter()
         .nth(1)
         .ok_or("constructor call has no address argument")?;
-    let mut addr_arg = peel(addr_arg);
-    while let Expr::Cast(c) = addr_arg {
-        addr_arg = peel(&c.expr);
-    }
-    let addr_expr = match addr_arg {
-        Expr::Path(p) if p.qself.is_none() && p.path.get_ident().is_some() => {
-            let local = p.path.get_ident().unwrap().to_string();
-            find_let(&f.block, &local).ok_or_else(|| format!("no `let {local} = …;` statement for the address argument"))?
+    // follow locals and `as T` casts until an expression that is neither is reached
+    let mut addr_expr = peel(addr_arg);
+    for _ in 0..8 {
+        match addr_expr {
+            Expr::Cast(c) => addr_expr = peel(&c.expr),
+            Expr::Path(p) if p.qself.is_none() && p.path.get_ident().is_some() => {
+                let local = p.path.get_ident().unwrap().to_string();
+                addr_expr = peel(
+                    find_let(&f.block, &local)
+                        .ok_or_else(|| format!("no `let {local} = …;` statement for the address argument"))?,
+                );
+            }
+            _ => break,
         }
-        other => other,
-    };
+    }
     let (address, repeat) = match peel(addr_expr) {
         Expr::Block(b) => {
             let count = assert_count(&b.block)?;
@@ -759,60 +763,98 @@ fn read_all_body(block: &Block) -> Res<Vec<Value>> {
         index: Value,
         cfg: Value,
     }
-    let mut pending: Option<Pending> = None;
-    let mut out = Vec::new();
-
-    for stmt in &block.stmts {
-        match stmt {
-            Stmt::Local(l) if pat_ident_name(&l.pat).as_deref() == Some("reg") => {
-                if pending.is_some() {
-                    return Err("two `let reg = …` statements without a `callback(…)` in between".into());
+    /// One statement list (the function body, or a `{ … }` statement inside it, gated by `outer_cfg`): reads are
+    /// `let NAME = self.ACCESSOR(…).read()…?;`, reports are `callback(ADDR, "display", VALUE)` where ADDR may be a
+    /// local bound earlier in the same list. Anything else is refused rather than skipped.
+    fn walk(block: &Block, outer_cfg: &Value, out: &mut Vec<Value>) -> Res<()> {
+        let mut pending: Option<Pending> = None;
+        let mut locals: Vec<(String, &Expr)> = Vec::new();
+        let n = block.stmts.len();
+        for (pos, stmt) in block.stmts.iter().enumerate() {
+            match stmt {
+                Stmt::Local(l) => {
+                    let name = pat_ident_name(&l.pat).ok_or("`let` with a pattern in read_all_registers")?;
+                    let init = l.init.as_ref().ok_or_else(|| format!("`let {name}` without initialiser"))?;
+                    if let Some((method, args)) = accessor_call(&init.expr) {
+                        if pending.is_some() {
+                            return Err("two register reads without a `callback(…)` in between".into());
+                        }
+                        let index = match args.as_slice() {
+                            [] => Value::Null,
+                            [a] => Value::String(need_int(a, "accessor index")?),
+                            _ => return Err(format!("accessor `{method}` called with more than one argument")),
+                        };
+                        let own = cfg_of(&l.attrs);
+                        pending = Some(Pending {
+                            method,
+                            index,
+                            cfg: if own.is_null() { outer_cfg.clone() } else { own },
+                        });
+                    } else {
+                        locals.push((name, &init.expr));
+                    }
                 }
-                let init = l.init.as_ref().ok_or("`let reg` without initialiser")?;
-                let (method, args) = accessor_call(&init.expr)
-                    .ok_or_else(|| format!("`let reg = {}` is not `self.NAME(…).read()?`", show(&init.expr)))?;
-                let index = match args.as_slice() {
-                    [] => Value::Null,
-                    [a] => Value::String(need_int(a, "accessor index")?),
-                    _ => return Err(format!("accessor `{method}` called with more than one argument")),
-                };
-                pending = Some(Pending {
-                    method,
-                    index,
-                    cfg: cfg_of(&l.attrs),
-                });
-            }
-            Stmt::Expr(e, _) => {
-                let call = match peel(e) {
-                    Expr::Call(c) if expr_is_ident(&c.func, "callback") => c,
+                Stmt::Expr(e, _) => match peel(e) {
+                    Expr::Call(c) if expr_is_ident(&c.func, "callback") => {
+                        let p = pending
+                            .take()
+                            .ok_or("`callback(…)` without a preceding register read")?;
+                        let args: Vec<&Expr> = c.args.iter().collect();
+                        if args.len() != 3 {
+                            return Err(format!("`callback` called with {} arguments (expected 3)", args.len()));
+                        }
+                        let resolve = |e: &Expr| -> Expr {
+                            let mut cur = peel(e).clone();
+                            for _ in 0..4 {
+                                let next = match &cur {
+                                    Expr::Path(pp) if pp.qself.is_none() && pp.path.get_ident().is_some() => {
+                                        let id = pp.path.get_ident().unwrap().to_string();
+                                        locals.iter().rev().find(|(n, _)| *n == id).map(|(_, init)| peel(init).clone())
+                                    }
+                                    _ => None,
+                                };
+                                match next {
+                                    Some(nx) => cur = nx,
+                                    None => break,
+                                }
+                            }
+                            cur
+                        };
+                        let addr = resolve(args[0]);
+                        let (address, stride) = decode_callback_address(&addr, &p.index)?;
+                        let disp = resolve(args[1]);
+                        let display = str_of_expr(&disp)
+                            .ok_or_else(|| format!("callback display name is not a string literal: `{}`", show(args[1])))?;
+                        out.push(json!({
+                            "method": p.method,
+                            "cfg": p.cfg,
+                            "index": p.index,
+                            "address": address,
+                            "stride": stride,
+                            "display": display,
+                        }));
+                    }
+                    Expr::Block(b) => {
+                        if pending.is_some() {
+                            return Err("a block statement between a register read and its `callback(…)`".into());
+                        }
+                        let own = cfg_of(&b.attrs);
+                        walk(&b.block, if own.is_null() { outer_cfg } else { &own }, out)?;
+                    }
                     // the final `Ok(())`
-                    _ => continue,
-                };
-                let p = pending
-                    .take()
-                    .ok_or("`callback(…)` without a preceding `let reg = …`")?;
-                let args: Vec<&Expr> = call.args.iter().collect();
-                if args.len() != 3 {
-                    return Err(format!("`callback` called with {} arguments (expected 3)", args.len()));
-                }
-                let (address, stride) = decode_callback_address(args[0], &p.index)?;
-                let display = str_of_expr(args[1])
-                    .ok_or_else(|| format!("callback display name is not a string literal: `{}`", show(args[1])))?;
-                out.push(json!({
-                    "method": p.method,
-                    "cfg": p.cfg,
-                    "index": p.index,
-                    "address": address,
-                    "stride": stride,
-                    "display": display,
-                }));
+                    Expr::Call(c) if pos + 1 == n && expr_is_ident(&c.func, "Ok") => {}
+                    other => return Err(format!("statement not understood in read_all_registers: `{}`", show(other))),
+                },
+                Stmt::Item(_) | Stmt::Macro(_) => return Err("item or macro statement in read_all_registers".into()),
             }
-            _ => {}
         }
+        if pending.is_some() {
+            return Err("trailing register read without `callback(…)`".into());
+        }
+        Ok(())
     }
-    if pending.is_some() {
-        return Err("trailing `let reg = …` without `callback(…)`".into());
-    }
+    let mut out = Vec::new();
+    walk(block, &Value::Null, &mut out)?;
     Ok(out)
 }
 
@@ -1102,28 +1144,77 @@ fn is_method_on(e: &Expr, recv: &str, method: &str) -> bool {
     matches!(peel(e), Expr::MethodCall(mc) if mc.method == method && expr_is_ident(&mc.receiver, recv))
 }
 
+/// Does `e` denote the value the getter loaded: the `unsafe { …::load_*(…) }` expression itself, or a local bound to it?
+fn denotes_load(f: &ImplItemFn, e: &Expr) -> bool {
+    fn is_load_expr(e: &Expr) -> bool {
+        let inner = match peel(e) {
+            Expr::Unsafe(u) => match tail_expr(&u.block) {
+                Some(t) => peel(t),
+                None => return false,
+            },
+            other => other,
+        };
+        match inner {
+            Expr::Call(c) => match peel(&c.func) {
+                Expr::Path(p) => matches!(last_ident(&p.path).as_deref(), Some("load_lsb0" | "load_msb0")),
+                _ => false,
+            },
+            _ => false,
+        }
+    }
+    match peel(e) {
+        Expr::Path(p) if p.qself.is_none() && p.path.get_ident().is_some() => {
+            let name = p.path.get_ident().unwrap().to_string();
+            find_let(&f.block, &name).map(is_load_expr).unwrap_or(false)
+        }
+        other => is_load_expr(other),
+    }
+}
+
+/// `x.METHOD()` or `…::TRAIT::METHOD(x)` (any path ending in one of `fns`) → `x`
+fn conversion_arg<'a>(e: &'a Expr, methods: &[&str], fns: &[&str]) -> Option<&'a Expr> {
+    match peel(e) {
+        Expr::MethodCall(mc) if mc.args.is_empty() && methods.iter().any(|m| mc.method == m) => Some(&mc.receiver),
+        Expr::Call(c) if c.args.len() == 1 => match peel(&c.func) {
+            Expr::Path(p) if p.path.segments.len() >= 2 && fns.iter().any(|m| last_ident(&p.path).as_deref() == Some(m)) => {
+                c.args.first()
+            }
+            _ => None,
+        },
+        _ => None,
+    }
+}
+
 fn getter_conv(f: &ImplItemFn) -> Res<&'static str> {
     let tail = tail_expr(&f.block).ok_or("getter has no tail expression")?;
     let tail = peel(tail);
-    if expr_is_ident(tail, "raw") {
+    if denotes_load(f, tail) {
         return Ok("raw");
     }
-    if is_method_on(tail, "raw", "into") {
-        return Ok("into");
+    if let Some(x) = conversion_arg(tail, &["into"], &["into", "from"]) {
+        if denotes_load(f, x) {
+            return Ok("into");
+        }
     }
-    if is_method_on(tail, "raw", "try_into") {
-        return Ok("try_into");
+    if let Some(x) = conversion_arg(tail, &["try_into"], &["try_into", "try_from"]) {
+        if denotes_load(f, x) {
+            return Ok("try_into");
+        }
     }
     if let Expr::Unsafe(u) = tail {
         if let Some(Expr::MethodCall(mc)) = tail_expr(&u.block).map(peel) {
-            if mc.method == "unwrap_unchecked" && is_method_on(&mc.receiver, "raw", "try_into") {
-                return Ok("unsafe_into");
+            if mc.method == "unwrap_unchecked" {
+                if let Some(x) = conversion_arg(&mc.receiver, &["try_into"], &["try_into", "try_from"]) {
+                    if denotes_load(f, x) {
+                        return Ok("unsafe_into");
+                    }
+                }
             }
         }
     }
     if let Expr::Binary(b) = tail {
-        if matches!(b.op, BinOp::Gt(_)) && expr_is_ident(&b.left, "raw") && int_of_expr(&b.right).as_deref() == Some("0")
-        {
+        // the carrier of a bool is unsigned: `> 0` and `!= 0` are the same test
+        if matches!(b.op, BinOp::Gt(_) | BinOp::Ne(_)) && denotes_load(f, &b.left) && int_of_expr(&b.right).as_deref() == Some("0") {
             return Ok("bool");
         }
     }
